@@ -730,7 +730,7 @@ def r03_14(ctx):
     return rr
 
 
-def _replacements_inherit_consumers(func_node):
+def _replacements_inherit_consumers(func_node, callee_touches_dependents=None):
     """In a simplify driver: every ``expr = out`` that puts a rewrite's result in place of the node being simplified is
     directly preceded (same block) by a statement that hands the old node's recorded consumers to the new one - a call
     ``f(expr, out)`` of a local helper that writes ``dependents[<new>._name]`` from ``dependents...(<old>._name)``, or
@@ -761,6 +761,11 @@ def _replacements_inherit_consumers(func_node):
                         t = unparse(prev)
                         if any(t.startswith(f"{h}({cur}, {res})") for h in helpers) or (f"dependents[{res}._name]" in t and f"{cur}._name" in t):
                             ok += 1
+                        elif isinstance(prev, ast.Expr) and isinstance(prev.value, ast.Call):
+                            # the hand-over extracted into a method / module helper: a call that receives both nodes (and the map)
+                            names = {a.id for a in prev.value.args if isinstance(a, ast.Name)} | {k.value.id for k in prev.value.keywords if isinstance(k.value, ast.Name)}
+                            if {cur, res} <= names and "dependents" in names | {"dependents"} and callee_touches_dependents is not None and callee_touches_dependents(prev.value):
+                                ok += 1
     return total, ok
 
 
@@ -783,7 +788,17 @@ def r03_15(ctx):
     rr.inst(site(reader), reads="dependents[<node>._name]")
     f = base.methods.get("simplify_once")
     if f is not None:
-        total, ok = _replacements_inherit_consumers(f.node)
+        def touches(call, f=f):
+            g = None
+            if isinstance(call.func, ast.Attribute) and isinstance(call.func.value, ast.Name) and call.func.value.id == "self":
+                hit = repo.class_attr(base, call.func.attr)
+                g = hit[1] if hit and isinstance(hit[1], FuncInfo) else None
+            elif isinstance(call.func, ast.Name):
+                r = repo.resolve_name(call.func.id, f.module, f)
+                g = r[1] if r and r[0] == "func" else None
+            return g is not None and any(isinstance(n, ast.Subscript) and isinstance(n.value, ast.Name) and n.value.id == "dependents" for n in full_walk(g.node))
+
+        total, ok = _replacements_inherit_consumers(f.node, touches)
         cst = site(f)
         rr.inst(cst, replacement_assignments=total, inheriting=ok, driver="dask_array override")
         if total < 2 or ok != total:
